@@ -106,12 +106,16 @@ func (c *Ctx) extractFindCall(method string) (*findCall, error) {
 	if fn == nil {
 		return nil, fmt.Errorf("op.CircleOfFifth.%s not found", method)
 	}
-	calls := callsTo(fn, "op.CircleOfFifth.find")
+	// the call of find may sit in a helper shared by the four conversions: look at the region, resolve arguments upwards
+	tr := c.plainTracer()
+	region := c.regionCalls(fn, func(f *ssa.Function) bool { return !f.Object().Exported() && f.Name() != "find" && f.Name() != "index" })
+	calls := findRegion(region, func(ci ssa.CallInstruction) bool { return calleeName(ci.Common()) == "op.CircleOfFifth.find" })
 	if len(calls) != 1 {
 		return nil, fmt.Errorf("%d calls to find in %s", len(calls), method)
 	}
-	call := calls[0].Common()
-	fc := &findCall{method: method, pos: calls[0].Pos(), deltaByMode: map[bool]int64{}}
+	rc := calls[0]
+	call := rc.call.Common()
+	fc := &findCall{method: method, pos: rc.call.Pos(), deltaByMode: map[bool]int64{}}
 	keyParam := fn.Params[1]
 	isKeyMinor := func(v ssa.Value) bool {
 		name, base, ok := loadedField(v)
@@ -120,25 +124,32 @@ func (c *Ctx) extractFindCall(method string) (*findCall, error) {
 		}
 		return c.derivesFromParam(base, keyParam)
 	}
+	arg := func(i int) lval { return tr.trace(lval{call.Args[i], rc.fn, rc.chain}) }
 	// args: c, key, isMinor, delta
-	modeArg := call.Args[2]
-	if u, ok := modeArg.(*ssa.UnOp); ok && u.Op == token.NOT && isKeyMinor(u.X) {
+	modeArg := arg(2)
+	if len(modeArg.chain) != 0 {
+		return nil, fmt.Errorf("mode argument of find in %s does not come from the method's key", method)
+	}
+	if u, ok := modeArg.v.(*ssa.UnOp); ok && u.Op == token.NOT && isKeyMinor(u.X) {
 		fc.flipMode = true
-	} else if isKeyMinor(modeArg) {
+	} else if isKeyMinor(modeArg.v) {
 		fc.flipMode = false
 	} else {
 		return nil, fmt.Errorf("mode argument of find in %s is neither key.Minor nor !key.Minor", method)
 	}
-	if !c.derivesFromParam(call.Args[1], keyParam) {
+	if ka := arg(1); len(ka.chain) != 0 || !c.derivesFromParam(ka.v, keyParam) {
 		return nil, fmt.Errorf("find in %s is not called with the method's key", method)
 	}
-	delta := call.Args[3]
+	dl := arg(3)
+	delta := dl.v
+	if len(dl.chain) != 0 {
+		return nil, fmt.Errorf("delta of find in %s is not decided by the method", method)
+	}
 	if k, ok := constInt(delta); ok {
 		fc.deltaByMode[true], fc.deltaByMode[false] = k, k
 		return fc, nil
 	}
 	// a choice on key.Minor in any shape (if/else, default then override, helper with two returns): guarded alternatives
-	tr := c.plainTracer()
 	alts := tr.alts(lval{delta, fn, nil}, 0)
 	if len(alts) < 2 {
 		return nil, fmt.Errorf("delta of find in %s is neither a constant nor a two-way choice on key.Minor", method)
